@@ -335,6 +335,70 @@ fn binding_cases() -> Vec<(String, Case)> {
     out
 }
 
+// ----- (1b) sibling arguments --------------------------------------------------------------------
+
+/// Two arguments of ONE step (an elementary step of a macro body, or a nested invocation) whose
+/// bindings refer to each other's names: `key=$name` must take the CALLER's value for `name`, never
+/// the value a sibling argument of the same step binds to that name — whichever way the two names sort.
+/// Complete product: 7 forms x 7 forms x every subset of caller arguments {k1, k2, w} x 2 levels
+/// x 2 name pairs (in both lexical orders) x stand-alone/step.
+fn sibling_cases() -> Vec<(String, Case)> {
+    let mut out = Vec::new();
+    for level in 0..2 {
+        // level 0: m:x = helmert <k1>=.. <k2>=..          (k1, k2 are helmert's own keys)
+        // level 1: m:x = i:pq <k1>=.. <k2>=.. ; i:pq = helmert x=$<k1>(0) y=$<k2>(0)
+        let pairs: [(&str, &str); 2] = if level == 0 { [("x", "y"), ("y", "x")] } else { [("p", "q"), ("q", "p")] };
+        for (k1, k2) in pairs {
+            let forms = |_own: &str| -> Vec<Bind> {
+                vec![
+                    Bind::Lit("5".into()),
+                    Bind::Ref(k1.into()),
+                    Bind::Ref(k2.into()),
+                    Bind::Ref("w".into()),
+                    Bind::RefDef(k1.into(), "7".into()),
+                    Bind::RefDef(k2.into(), "7".into()),
+                    Bind::Def("8".into()),
+                ]
+            };
+            for (i1, f1) in forms(k1).iter().enumerate() {
+                for (i2, f2) in forms(k2).iter().enumerate() {
+                    for subset in 0..8u8 {
+                        for as_step in [false, true] {
+                            let mut macros = BTreeMap::new();
+                            let args = [(k1, f1.clone()), (k2, f2.clone())];
+                            if level == 0 {
+                                macros.insert("m:x".to_string(), vec![SStep::new("helmert", &args)]);
+                            } else {
+                                macros.insert("m:x".to_string(), vec![SStep::new("i:pq", &args)]);
+                                macros.insert(
+                                    "i:pq".to_string(),
+                                    vec![SStep::new("helmert", &[("x", Bind::RefDef(k1.into(), "0".into())), ("y", Bind::RefDef(k2.into(), "0".into()))])],
+                                );
+                            }
+                            let mut cargs: Vec<(String, Bind)> = Vec::new();
+                            if subset & 1 != 0 {
+                                cargs.push((k1.to_string(), Bind::Lit("1".into())));
+                            }
+                            if subset & 2 != 0 {
+                                cargs.push((k2.to_string(), Bind::Lit("2".into())));
+                            }
+                            if subset & 4 != 0 {
+                                cargs.push(("w".to_string(), Bind::Lit("3".into())));
+                            }
+                            let call = SStep { name: "m:x".into(), args: cargs, inv: 0 };
+                            let top: Body = if as_step { vec![SStep::new("addone", &[]), call] } else { vec![call] };
+                            let cross = matches!((i1, i2), (2, _) | (5, _) | (_, 1) | (_, 4));
+                            let label = format!("sibling/level{level}/{}", if cross { "cross reference" } else { "no cross reference" });
+                            out.push((label, Case { macros, top }));
+                        }
+                    }
+                }
+            }
+        }
+    }
+    out
+}
+
 // ----- (2) nesting chains ------------------------------------------------------------------------
 
 /// Per level: the parameter name used by that level, and how the level forwards to the next
@@ -670,11 +734,13 @@ fn inprocess(rep: &Report, cases: Vec<(String, Case)>, label: &str) {
 pub fn run(tier: Tier) -> Report {
     let rep = Report::new("C04", tier, "model_checking");
     rep.rule("complete products: (body shape x binding form x parameter name x caller argument subset x inv placement x stand-alone/step), \
+              (two sibling arguments of one step: 7 x 7 binding forms incl. cross references x caller argument subset x leaf/nested x both name orders), \
               (chains of depth 1..4 x per-level name x per-level forwarding form x given/absent x pipeline bodies x inverted levels), \
               (all assignments of 20 bodies to 3 macro names x 3 entries), rings 1..50 and chains 0..50; each invocation compared with the \
               execution of its reference expansion. Non-trivial/distinct = distinct observed result hash");
     rep.assume("the reference expander implements environment-passing substitution as stated in the property (caller values visible to every step and nested macro, step-local values win, $name/$name(d)/(d) forms)");
     inprocess(&rep, binding_cases(), "binding");
+    inprocess(&rep, sibling_cases(), "sibling arguments");
     let nest = nesting_cases();
     inprocess(&rep, nest, "nesting");
     graph_sweep(&rep);
